@@ -409,7 +409,7 @@ func TestC19(t *testing.T) {
 	c.rec.F.Rule = "rapid: (template x report level x language x reader kind x vector). Templates come from a grammar: literal text (ASCII, unicode, lone braces, newlines), field references of all three report levels and through the embedded reports, pipelines (printf, len, html, js, urlquery, print, index, slice, eq/ne/lt.., and/or/not), if/else/with/range, variables, comments, trim markers, define/template/block without recursion, and invalid forms (unknown field or function, field of a higher level, unbalanced or stray actions, bad pipelines, wrong arity). Readers: ExportWithString, bytes.Reader, one-byte, half, data-with-EOF, failing after k bytes with one of eight error values real readers report (io.ErrUnexpectedEOF, closed pipe, deadline, a wrapped io.EOF …; returned on the next call or together with the last bytes), nil interface, and partially consumed strings.Reader / bytes.Reader / SectionReader / bytes.Buffer / bufio.Reader (content = what remains); nil reports of each level. Oracle A: parse and execute the same text with text/template on the same report value (failure => error matching invalid-template and nil reader; success => identical bytes); oracle B: reflection model for literal + plain-field templates. Thorough adds native fuzzing of the template bytes. Non-trivial = template containing at least one action; distinct by hash of the case."
 	c.rec.F.Assumptions = []string{"text/template of the toolchain is the reference for rendering (the property says so)", "the oracle uses the same root template name as the library so that self-referential definitions behave identically; templates with call cycles or > 1 MiB output are skipped and counted", "typed-nil readers are outside the property (nil reader = nil interface value)"}
 	tags := []string{"en", "ja", "fr", "und"}
-	c.rapidStage("rapid", pick(20000, 1000000), func(rt *rapid.T) {
+	c.rapidStage("rapid", pick(80000, 1000000), func(rt *rapid.T) {
 		lv := gen.Level().Draw(rt, "level")
 		v := gen.ValidV3(lv).Draw(rt, "vector")
 		text := gen.Template(rt, lv)
